@@ -116,10 +116,18 @@ Proof.
   destruct incl, c as [[]|]; apply eqb_prop; assumption.
 Qed.
 
+(* what the message of the first rejecting branch formats *)
+Fixpoint tests_fmt (tests : list btest) (incl : bool) (c : option comparison) : list fmtarg :=
+  match tests with
+  | [] => []
+  | t :: ts => if xorb (cmp_holds (bt_op t) c) (bt_neg t) && Bool.eqb incl (bt_pol t) then bt_fmt t else tests_fmt ts incl c
+  end.
+
 (* on numbers no comparison raises, so the order of the operands of `and` does not matter *)
 Lemma bound_tests_sem : forall VE tests b incl v x y,
   num_view v = Some x -> num_view b = Some y ->
-  bound_tests VE tests b incl v = if tests_reject tests incl (xcmp x y) then Raise VE else Ok v.
+  bound_tests VE tests b incl v =
+  if tests_reject tests incl (xcmp x y) then reject VE (tests_fmt tests incl (xcmp x y)) v b else Ok v.
 Proof.
   intros VE tests b incl v x y Vx Vy. induction tests as [|t ts IH]; simpl; [reflexivity|].
   unfold py_cmp. rewrite Vx, Vy.
@@ -129,6 +137,50 @@ Proof.
     + rewrite andb_false_r. exact IH.
   - destruct (xorb (cmp_holds (bt_op t) (xcmp x y)) (bt_neg t) && Bool.eqb incl (bt_pol t)); simpl; [reflexivity | exact IH].
 Qed.
+
+(* ---------- formatting ---------------------------------------------------------------------------------- *)
+Lemma reject_ok : forall A VE fmt v b, fmt_ok v = true -> fmt_ok b = true -> @reject A VE fmt v b = Raise VE.
+Proof.
+  intros A VE fmt v b Fv Fb. unfold reject.
+  replace (forallb _ fmt) with true; [reflexivity|]. symmetry. apply forallb_forall. intros [] _; auto.
+Qed.
+
+Lemma reject_cases : forall A VE fmt v b, @reject A VE fmt v b = Raise VE \/ @reject A VE fmt v b = Raise ValueErrorC.
+Proof. intros. unfold reject. destruct (forallb _ fmt); auto. Qed.
+
+Lemma fmt_ok_list : forall l, fmt_ok (VList l) = forallb fmt_ok l.
+Proof. induction l as [|x l IH]; [reflexivity|]. simpl in *. now rewrite IH. Qed.
+Lemma fmt_ok_tuple : forall l, fmt_ok (VTuple l) = forallb fmt_ok l.
+Proof. induction l as [|x l IH]; [reflexivity|]. simpl in *. now rewrite IH. Qed.
+Lemma fmt_ok_dict : forall ks vs, fmt_ok (VDict ks vs) = forallb fmt_ok ks && forallb fmt_ok vs.
+Proof.
+  intros ks vs. pose proof (fmt_ok_list ks) as A. pose proof (fmt_ok_list vs) as B. simpl in *. now rewrite A, B.
+Qed.
+
+(* the items of a printable container are printable *)
+Lemma iter_items_fmt : forall v items, iter_items v = Some items -> fmt_ok v = true -> forallb fmt_ok items = true.
+Proof.
+  intros v items H F. destruct v; simpl in H; try discriminate; injection H as <-.
+  - induction s; simpl; auto.
+  - simpl in F. induction s as [|c s IH]; simpl in *; [reflexivity|]. apply andb_true_iff in F as [F1 F2]. now rewrite F1, IH.
+  - now rewrite <- fmt_ok_list.
+  - now rewrite <- fmt_ok_tuple.
+  - rewrite fmt_ok_dict in F. now apply andb_true_iff in F as [F _].
+Qed.
+
+(* no int beyond the digit limit among the bounds of a validator tree *)
+Fixpoint w_fmt_ok (w : validator) : bool :=
+  let fix all (l : list validator) : bool :=
+    match l with [] => true | c :: l' => w_fmt_ok c && all l' end in
+  match w with
+  | WMin b _ | WMax b _ => fmt_ok b
+  | WForEach cs | WComposite cs => all cs
+  | _ => true
+  end.
+Lemma w_fmt_ok_foreach : forall cs, w_fmt_ok (WForEach cs) = forallb w_fmt_ok cs.
+Proof. induction cs as [|c cs IH]; [reflexivity|]. simpl in *. now rewrite IH. Qed.
+Lemma w_fmt_ok_composite : forall cs, w_fmt_ok (WComposite cs) = forallb w_fmt_ok cs.
+Proof. induction cs as [|c cs IH]; [reflexivity|]. simpl in *. now rewrite IH. Qed.
 
 (* ---------- handler tables ---------------------------------------------------------------------------- *)
 Definition is_rv (a : haction) : bool := match a with HRaiseValidator => true | _ => false end.
@@ -157,21 +209,21 @@ Proof.
     congruence.
 Qed.
 
-Lemma handle_rv : forall A VE raises t e, htable_good is_rv raises t = true -> within e raises = true ->
-  @handle A VE t e = Raise VE.
+Lemma handle_rv : forall A (rv : outcome A) raises t e, htable_good is_rv raises t = true -> within e raises = true ->
+  handle rv t e = rv.
 Proof.
-  intros A VE raises t e G W. destruct (handler_found _ _ _ _ G W) as ([cs a] & F & Ha).
+  intros A rv raises t e G W. destruct (handler_found _ _ _ _ G W) as ([cs a] & F & Ha).
   unfold handle. rewrite F. destruct a; simpl in Ha; try discriminate. reflexivity.
 Qed.
 
-Lemma handle_raise : forall A VE c raises t e, htable_good (is_raise c) raises t = true -> within e raises = true ->
-  @handle A VE t e = Raise c.
+Lemma handle_raise : forall A (VE : outcome A) c raises t e, htable_good (is_raise c) raises t = true -> within e raises = true ->
+  handle VE t e = Raise c.
 Proof.
   intros A VE c raises t e G W. destruct (handler_found _ _ _ _ G W) as ([cs a] & F & Ha).
   unfold handle. rewrite F. destruct a; simpl in Ha; try discriminate. apply exn_eqb_eq in Ha. now subst.
 Qed.
 
-Lemma handle_reraise : forall A VE t e, forallb (fun row => is_reraise (snd row)) t = true -> @handle A VE t e = Raise e.
+Lemma handle_reraise : forall A (VE : outcome A) t e, forallb (fun row => is_reraise (snd row)) t = true -> handle VE t e = Raise e.
 Proof.
   intros A VE t e G. unfold handle.
   destruct (find (fun row => existsb (derives e) (fst row)) t) as [[cs a]|] eqn:F; [|reflexivity].
@@ -292,7 +344,11 @@ Record oracles_ok (O : oracles) : Prop := {
   ok_float : forall s, raises_within (o_float_of_str O s) [ValueErrorC];
   ok_uuid : forall s, raises_within (o_uuid O s) [ValueErrorC];
   ok_iso : forall v, raises_within (o_fromiso O v) [TypeErrorC; ValueErrorC];
-  ok_epoch : forall f, raises_within (o_epoch_plus O f) [OverflowErrorC; ValueErrorC]
+  ok_epoch : forall f, raises_within (o_epoch_plus O f) [OverflowErrorC; ValueErrorC];
+  (* ... and that what they return (a UUID, a datetime) prints *)
+  ok_uuid_fmt : forall s u, o_uuid O s = Ok u -> fmt_ok u = true;
+  ok_iso_fmt : forall v d, o_fromiso O v = Ok d -> fmt_ok d = true;
+  ok_epoch_fmt : forall f d, o_epoch_plus O f = Ok d -> fmt_ok d = true
 }.
 
 Lemma within_more : forall e cs cs', within e cs = true -> incl cs cs' -> within e cs' = true.
